@@ -1,6 +1,7 @@
 package main
 
 import (
+	"errors"
 	"fmt"
 	"net/url"
 	"reflect"
@@ -237,6 +238,8 @@ type c17Runner struct {
 	tpls2 map[string]*pongo2.Template // the same filter inside with / for / macro regions of an autoescape-off region
 }
 
+var errC17Writer = errors.New("c17: the caller's writer is broken")
+
 const c17Sep = "\u27e6SEP\u27e7"
 
 // c17Markup is a string-kinded type whose printed form differs from its underlying text
@@ -344,6 +347,16 @@ func (r *c17Runner) checkP(c *C, filter, in, pstr string) bool {
 			tv, xe := r.tpls[filter].Execute(pongo2.Context{"v": sv, "p": pstr})
 			if xe != nil || tv != b.String() {
 				c.Fail("routes-disagree", D{"filter": filter, "input": fmt.Sprintf("%T with String() = %s", sv, q(printed)), "ApplyFilter_on_printed_form": q(b.String()), "template": q(tv), "template_err": errStr(xe)})
+				return false
+			}
+		}
+		// the caller's writer breaks while the page is delivered; the next rendering is not affected
+		for _, fw := range []*recWriter{{failAt: 1, err: errC17Writer}, {failAt: 1, err: errC17Writer, short: 1}} {
+			r.tpls[filter].ExecuteWriter(pongo2.Context{"v": "UNDELIVERED<>&'\" tail " + in, "p": pstr}, fw)
+			again, aerr := r.tpls[filter].Execute(pongo2.Context{"v": in, "p": pstr})
+			c.Eval(2)
+			if aerr != nil || again != out {
+				c.Fail("routes-disagree", D{"filter": filter, "input": q(in), "ApplyFilter": q(out), "template_after_a_failed_delivery": q(again), "template_err": errStr(aerr)})
 				return false
 			}
 		}
